@@ -30,6 +30,8 @@ for d in sys.argv[1:]:
         entry = {"detected": r["detected"], "tier": r["tier"], "repo_head": r["repo_head"], "results": r["results"]}
         if entry not in runs:
             runs.append(entry)
+    if "superseded" in old:
+        meta["superseded"] = old["superseded"]
     meta["check_runs"] = runs
     meta["detected"] = any(x["detected"] for x in runs) if runs else None
     json.dump(meta, open(os.path.join(out, "meta.json"), "w"), indent=1)
